@@ -10,6 +10,22 @@ CLAIMED = {
    "Seeded cluster executions of real nodes with a drawn stabilisation time: before it arbitrary loss/duplication/delay/partitions/stalls/crashes (<20% of stake) and <20%-stake Byzantine validators, after it no loss and delays <= 100 ms. Bounded liveness is then demanded: every live correct node's finalized slot advances within every interval of B = 2*DELTA_STANDSTILL + 4*(DELTA_TIMEOUT+4*DELTA_BLOCK); in windows of correct live leaders that start >= 2 s after stabilisation with all live nodes caught up (and dissemination guaranteed), every proposed block is finalized everywhere and not skipped; in the lockstep configuration (equal stakes, constant latency) every such block gets a fast-finalization certificate. A fault-free variant runs with no relaxation.",
    "Liveness is only demanded after stabilisation and only under the measured preconditions listed above; the fast-finalization demand is restricted to the lockstep configuration because with skewed stakes or jitter a 60% coalition can legitimately complete the two-round path first (DESIGN §7 C02). N <= 7.",
    "DESIGN.md §7 C02"),
+ "C05": ("exploration",
+   "Cluster monitor: in seeded executions with faults, partitions and <20%-stake Byzantine equivocating voters/leaders (several blocks per slot, blocks before parents, delayed certificates), every vote each correct node broadcasts is replayed in broadcast order against the voting rules: never a slashable combination with its own earlier votes, finalize only after notarizing and only for a block with a notarization certificate, fallback votes only after an initial vote and only once the stake they require had been voted anywhere, notar only for a block whose parent is the block notarized in the preceding slot or, in a window's first slot, a certified skip-connected parent.",
+   "Conditions that depend on what had reached the node (safe-to-notar/skip held, parent announced ready) are checked in their necessary form against everything on the wire by then: sound, weaker than per-node event causality (the single-node adversarial world of the design was not built).",
+   "DESIGN.md §7 C05, §15"),
+ "C09": ("exploration",
+   "Forged votes and certificates (chains of 1-3 structured mutations of valid messages, signer subsets just below/at/above the thresholds, mixed certificates with a signer in both halves) are offered on the wire to ValidatedVote/ValidatedCert::try_new and compared with an independent verdict (signature bytes equal the honest signature/aggregation of exactly the named signers over exactly this kind/slot/hash; bitmask length; distinct stake vs threshold, ignoring the declared stake); the cluster variant injects the same forgeries at real nodes and validates every certificate a correct node re-broadcasts.",
+   "The independent verdict trusts BLS signing and aggregation to be deterministic (they are) but not verification; sampled structured mutation, not all mutations.",
+   "DESIGN.md §7 C09, §15"),
+ "C10": ("exploration",
+   "Cluster executions with hostile generators on all five interfaces (garbage/mutated consensus messages with absurd slots, forged votes/certs, mutated shreds, hostile repair requests and unsolicited responses, oversize/empty/maximal transactions) and a Byzantine leader signing malformed blocks, interleaved with normal traffic: no panic located in the repository's sources in any task of a correct node, and after the hostile phase (variant with stabilisation) every live correct node keeps finalizing within the C02 bound.",
+   "Panics are attributed by source location; a task that ends silently without panicking is only noticed through the liveness half. Hostile generators are those of sim/src/hostile.rs and adv.rs.",
+   "DESIGN.md §7 C10"),
+ "C19": ("exploration",
+   "Every message kind (votes; certificates for 1..2048 validators incl. both halves and the highest index; shreds of all four shredders at boundary sizes; repair requests/responses with proofs for up to 1024 slices; transactions) is encoded, checked to fit 1500 bytes, round-tripped, rejected with trailing bytes and out-of-range indices, and corrupted at byte level (reject or stable re-encoding, never a panic); arbitrary byte strings go to all five decoders; the same monitor runs on every message real nodes emit in cluster runs.",
+   "Sizes of messages a correct node emits are measured on generated instances, not derived symbolically.",
+   "DESIGN.md §7 C19"),
  "C11": ("exploration",
    "For all four shredders, slices with boundary-biased payload lengths are shredded and sent through a lossy, reordering, duplicating datagram schedule to a receiver that calls deshred on every arrival: success iff >=32 distinct shreds, bit-exact slice and shreds, regenerated shreds validate, untouched array on error, oversize refused at shred time. This is the thinnest fit of the technique among the claimed properties: beyond loss/reorder/duplication it is seeded input sampling.",
    "Subsets are sampled (which 32..64 shreds, in which order), not enumerated; payload lengths are boundary-biased samples over every residue of the padding scheme.",
